@@ -21,14 +21,20 @@ def _collect_all_external_values(parent_graph: ir.Graph, graph: ir.Graph) -> set
         graph: The graph-like object to collect values from.
 
     Returns:
-        A set of :class:`~onnx_ir.Value` objects belonging to ``parent_graph``.
+        A set of :class:`~onnx_ir.Value` objects belonging to ``parent_graph``, plus the
+        initializers of graphs enclosing ``parent_graph`` that are used inside ``graph``.
+        The latter are recorded like initializers used directly by a node of the region.
     """
     values: set[ir.Value] = set()
-    for node in ir.traversal.RecursiveGraphIterator(graph):
+    nodes = list(ir.traversal.RecursiveGraphIterator(graph))
+    inner_graphs = {graph, *(node.graph for node in nodes)}
+    for node in nodes:
         for val in node.inputs:
             if val is None:
                 continue
-            if val.graph is parent_graph:
+            if val.graph is parent_graph or (
+                val.is_initializer() and val.graph not in inner_graphs
+            ):
                 values.add(val)
     return values
 
